@@ -29,17 +29,6 @@ Lemma compound_shadowed_refuted :
   /\ model_roundtrip (w_compound_choice_shadowed_in_json_u, w_compound_choice_shadowed_in_json_k) = false.
 Proof. vm_compute. repeat split. Qed.
 
-Lemma wrapper_under_best_match_refuted :
-  is_typed (w_wrapper_under_best_match_u, w_wrapper_under_best_match_k) = true
-  /\ clauses_failing (w_wrapper_under_best_match_u, w_wrapper_under_best_match_k) = [3]
-  /\ has_wrapper_object w_wrapper_under_best_match_u (dc_value w_wrapper_under_best_match_k) = true
-  /\ gres_eqb value_eqb
-       (match model_encode w_wrapper_under_best_match_u w_wrapper_under_best_match_k with
-        | Ok j => model_decode w_wrapper_under_best_match_u w_wrapper_under_best_match_k j
-        | Err e => Err e
-        end) (Err EParser) = true.
-Proof. vm_compute. repeat split. Qed.
-
 Lemma generic_keys_filtered_refuted :
   is_typed (w_generic_keys_filtered_u, w_generic_keys_filtered_k) = true
   /\ clauses_failing (w_generic_keys_filtered_u, w_generic_keys_filtered_k) = [7]
@@ -57,7 +46,10 @@ Lemma guard_inhabited :
   in_proved_slice (w_inside_slice_u, w_inside_slice_k) = true
   /\ in_proved_slice (w_inside_slice_filter_none_u, w_inside_slice_filter_none_k) = true
   /\ theorem_instance (w_inside_slice_u, w_inside_slice_k) = true
-  /\ theorem_instance (w_inside_slice_filter_none_u, w_inside_slice_filter_none_k) = true.
+  /\ theorem_instance (w_inside_slice_filter_none_u, w_inside_slice_filter_none_k) = true
+  (* the witness of the repaired finding "wrapper field under best-match" round-trips *)
+  /\ model_roundtrip (w_wrapper_under_best_match_u, w_wrapper_under_best_match_k) = true
+  /\ roundtrip_ok (w_wrapper_under_best_match_u, w_wrapper_under_best_match_k) = true.
 Proof. vm_compute. repeat split. Qed.
 
 Lemma json_native_all : forall j, json_native j = true.
